@@ -23,6 +23,7 @@ let action_of a =
      | 'p', [fl; cb] -> Some (AWatch (KProc, Z0, flags_of fl, zi cb))
      | _ -> failwith "w")
   | 'c' when String.length a > 1 && a.[1] <> 'b' -> Some (ACancel (zi (int_of_string (tl a 1))))
+  | 'd' when String.length a = 1 -> Some ADrop
   | _ -> None
 let parse_case line =
   let cbs = Hashtbl.create 8 and ubs = Hashtbl.create 8 in
@@ -77,19 +78,30 @@ let model line =
     | Some l -> pr_obs l
     | None -> "FAULT"
   else
-    match h_run seeded3 env uenv ops with
+    match (if seeded3 then h_run seeded3 env uenv ops else h_runx false env uenv ops) with
     | None -> "FAULT"
     | Some (l, leakfree) ->
-      if (not seeded3) && l <> run false env uenv ops then "ERR heap model and list model disagree" else
+      if (not seeded3) && l <> runx false env uenv ops then "ERR heap model and list model disagree" else
       if leakfree then pr_obs l else if l = [] then "LEAK" else pr_obs l ^ " LEAK"
 let oracle line =
   match String.index_opt line '|' with
   | Some i ->
     let c = String.sub line 0 i and o = tl line (i + 1) in
     let (env, uenv, ops) = parse_case c in
+    (* a script in which the application drops its reference ends with the tick during which that
+       happens (LoopDefs.runx): the specification is applied to that prefix; the destroy
+       notifications then carry the iteration number of that tick instead of -1 *)
+    let rec firstn k l = if k <= 0 then [] else match l with [] -> [] | x :: r -> x :: firstn (k - 1) r in
+    let n = List.length ops in
+    let rec cut k = if k > n then (ops, false) else
+        let p = firstn k ops in if snd (run_opsx false env uenv p st0) then (p, true) else cut (k + 1) in
+    let (ops, early) = cut 1 in
     (match (try Some (parse_obs o) with _ -> None) with
      | None -> "BAD unreadable observation"
-     | Some obs -> if spec_checkb env uenv ops obs then "OK" else "BAD differs from the specification: " ^ pr_obs (spec_run env uenv ops))
+     | Some obs ->
+       let obs = if not early then obs else
+           List.map (function OEv e when int_of_z e.e_flags land 4 <> 0 -> OEv { e with e_iter = zi (-1) } | x -> x) obs in
+       if spec_checkb env uenv ops obs then "OK" else "BAD differs from the specification: " ^ pr_obs (spec_run env uenv ops))
   | None -> "BAD"
 let () =
   let f = if Array.length Sys.argv > 1 && Sys.argv.(1) = "oracle" then oracle else model in
